@@ -87,8 +87,13 @@ class BuckGophermapHandler(BaseHandler):
                         # it in for gopher+.
                         # Only look at the filesystem for selectors that
                         # a request for them would be allowed to reach.
-                        if self.islocalselectorsecure(selector) and self.vfs.exists(
-                            selector
+                        # A selector without a leading slash (URL:...) is
+                        # not a path below the root: root + selector would
+                        # name a sibling of the root.
+                        if (
+                            selector.startswith("/")
+                            and self.islocalselectorsecure(selector)
+                            and self.vfs.exists(selector)
                         ):
                             entry.populatefromvfs(self.vfs, selector)
                     self.entries.append(entry)
